@@ -4,7 +4,7 @@ package openflow13
 
 // C07 — Parse is total: any byte string gives a message or an error; no panic escapes, every
 // library loop exits within N+2 iterations (unwinding assertion, N = input bytes), no single
-// allocation exceeds 64 KiB + 16 N elements.
+// allocation exceeds 64 KiB + 16 N bytes (element count × element size).
 // Families: flat (nothing assumed), framed (length field == bytes handed over, what the stream
 // guarantees), and concrete context + symbolic region for the deep decoders.
 // Bounds: flat N ≤ 20 (quick) / 32 (thorough); framed N ≤ 40 / 64; regions 16–32 B / 32–48 B.
